@@ -8,10 +8,12 @@ package PVM
 import (
 	"bytes"
 	"fmt"
+	"os"
 	"regexp"
 	"runtime"
 	"runtime/debug"
 	"sort"
+	"strconv"
 	"strings"
 
 	"github.com/New-JAMneration/JAM-Protocol/internal/zzverif/refpvm"
@@ -435,8 +437,8 @@ func c01Match(ref *c01Ref, im *c01Impl, relaxSbrk bool, want bool) (kind string,
 	sbrkSoft := relaxSbrk && ref.m.UsedSbrk
 	for i := 0; i < 13; i++ {
 		if im.regs[i] != ref.m.Regs[i] {
-			if sbrkSoft {
-				continue
+			if sbrkSoft && ref.m.SbrkRegs&(1<<uint(i)) != 0 {
+				continue // only the registers sbrk itself wrote are exempt
 			}
 			return "reg", D("r%d = 0x%x, reference 0x%x (exit %s)", i, im.regs[i], ref.m.Regs[i], e)
 		}
@@ -586,74 +588,119 @@ func c01Declared(p *refpvm.Program, pc uint64) (need int, l int) {
 	return 0, l
 }
 
-// c01Facet names the input class of the instruction the reference executed
-// last (the one that produced the exit).
-func c01Facet(ref *c01Ref) string {
+// c01Culprit picks the instruction a disagreement is blamed on: the last one
+// the reference executed, or - when the reference stopped out of gas but the
+// implementation did not - the one the reference was about to execute (the
+// implementation did something there without paying).
+func c01Culprit(ref *c01Ref, im *c01Impl) (pc uint64, executed bool) {
+	if ref.m.Steps == 0 {
+		return ref.m.PC, false
+	}
+	if im != nil && ref.exit.Kind == refpvm.OOG && im.deblobOK && !im.runPanic && im.kind != refpvm.OOG {
+		// the implementation ended the run although the reference merely ran out
+		// of gas. A block engine can stop without charging only before an
+		// instruction it cannot fetch (index past the code, or no bitmask bit);
+		// blame that one if it is next, else the last executed instruction.
+		if nx := ref.m.PC; nx >= uint64(len(ref.prog.Code)) || !ref.prog.K(nx) {
+			return nx, false
+		}
+	}
+	return ref.m.LastPC, true
+}
+
+func c01LDependent(cat refpvm.Category) bool { // immediate length is ℓ-1 (unsigned underflow when ℓ = 0)
+	return cat == refpvm.CatRegImm || cat == refpvm.CatRegRegImm || cat == refpvm.CatRegRegOff
+}
+
+func c01NibbleDeclared(cat refpvm.Category) bool { // first immediate length declared by an operand nibble/byte
+	return cat == refpvm.CatImmImm || cat == refpvm.CatRegImmImm || cat == refpvm.CatRegImmOff || cat == refpvm.CatRegRegImmImm
+}
+
+// c01KeyOf names the input class of the culprit instruction:
+// "cat=<operand category>;<facet>" (+ the opcode for the catch-all facet).
+func c01KeyOf(ref *c01Ref, im *c01Impl) string {
+	pc, executed := c01Culprit(ref, im)
 	m := ref.m
 	p := ref.prog
-	pc := m.LastPC
 	op := p.Zeta(pc)
 	cat := refpvm.CategoryOf(op)
 	n := uint64(len(p.Code))
-	switch {
-	case !p.K(pc):
-		return "k0"
-	case pc >= n:
-		return "pc>=len"
+	if !p.K(pc) {
+		return "cat=*;k0" // fetched where the bitmask has no bit: the category is beside the point
+	}
+	ck := "cat=" + cat.String() + ";"
+	if pc >= n {
+		return ck + "pc>=len"
 	}
 	need, l := c01Declared(p, pc)
 	b1 := p.Zeta(pc + 1)
 	if pc+1+uint64(need) > n {
-		return "operands-past-end"
+		return ck + "operands-past-end"
 	}
-	if op == 10 {
-		id := int64(ref.exit.Arg)
-		switch {
-		case id < 0:
-			return "id<0"
-		case id >= 256:
-			return "id>=256"
-		case id > 100:
-			return "id=101..255"
+	if executed {
+		if op == 10 && ref.exit.Kind == refpvm.Host {
+			id := int64(ref.exit.Arg)
+			switch {
+			case id < 0:
+				return ck + "id<0"
+			case id >= 256:
+				return ck + "id>=256"
+			case id > 100:
+				return ck + "id=101..255"
+			}
+			return ck + "id<=100"
 		}
-		return "id<=100"
-	}
-	if op == 101 {
-		return "sbrk"
+		if op == 101 {
+			return ck + "sbrk"
+		}
 	}
 	if cat == refpvm.CatImmImm && b1 >= 8 || cat == refpvm.CatRegImmImm && b1>>4 >= 8 {
-		return "lx-nibble>=8"
+		return ck + "lx-nibble>=8"
 	}
-	// static branch target classes
-	if cat == refpvm.CatOff || cat == refpvm.CatRegImmOff || cat == refpvm.CatRegRegOff {
-		t, ok := c01StaticTarget(p, pc)
-		switch {
-		case !ok:
-		case t < 0:
-			return "target<0"
-		case uint64(t) >= n:
-			return "target>=len"
-		case uint64(t) == pc:
-			return "target=self"
-		case !p.IsBlockStart(uint64(t)):
-			if !refpvm.IsValid(p.Zeta(uint64(t))) {
-				return "target=nonstart-invalid-opcode"
+	if c01LDependent(cat) && l == 0 {
+		return ck + "skip=0"
+	}
+	if executed {
+		if m.AccessLen > 0 && uint64(m.AccessAddr)+uint64(m.AccessLen) > 1<<32 {
+			return ck + "access-wraps-2^32"
+		}
+		continued := ref.exit.Kind == refpvm.OOG // the culprit itself completed
+		if t, ok := c01StaticTarget(p, pc); ok {
+			taken := ref.exit.Kind == refpvm.Panic || continued && m.PC == uint64(t) && t >= 0
+			if taken {
+				switch {
+				case t < 0:
+					return ck + "target<0"
+				case uint64(t) >= n:
+					return ck + "target>=len"
+				case uint64(t) == pc:
+					return ck + "target=self"
+				case !p.IsBlockStart(uint64(t)):
+					if !refpvm.IsValid(p.Zeta(uint64(t))) {
+						return ck + "target=nonstart-invalid-opcode"
+					}
+					return ck + "target=nonstart"
+				}
 			}
-			return "target=nonstart"
+		}
+		if op == 50 || op == 180 {
+			if continued && m.PC == pc {
+				return ck + "target=self"
+			}
+			if m.DjumpTable && p.Z > 8 {
+				return ck + "z>8"
+			}
 		}
 	}
-	if op == 50 || op == 180 {
-		if p.Z > 8 {
-			return "z>8"
-		}
-		if p.Z == 0 {
-			return "z=0"
-		}
+	if c01NibbleDeclared(cat) && need > l {
+		return ck + "declared>skip"
 	}
-	if need > l {
-		return "declared>skip"
-	}
-	return "plain"
+	return ck + fmt.Sprintf("op=%d;plain", op)
+}
+
+// c01ClassOf is the behaviour class of a full reference run.
+func c01ClassOf(ref *c01Ref) string {
+	return c01KeyOf(ref, nil) + " exit=" + ref.exit.Kind.String()
 }
 
 func c01StaticTarget(p *refpvm.Program, pc uint64) (int64, bool) {
@@ -688,13 +735,6 @@ func c01StaticTarget(p *refpvm.Program, pc uint64) (int64, bool) {
 		return int64(pc) + int64(refpvm.SignExt(lx, le(pc+2, lx))), true
 	}
 	return 0, false
-}
-
-func c01OpKey(ref *c01Ref) string {
-	if !ref.prog.K(ref.m.LastPC) {
-		return "cat=*" // fetched where the bitmask has no bit: the category is beside the point
-	}
-	return "cat=" + refpvm.CategoryOf(ref.prog.Zeta(ref.m.LastPC)).String()
 }
 
 // c01RejectFacet classifies a blob the reference deblobs but the implementation
@@ -844,8 +884,7 @@ func c01Check(r *vlib.Run, pid string, blob []byte, w *c01World, gas uint64, not
 		r.Cap("reference step cap hit")
 		return "cap"
 	}
-	facet := c01Facet(&v.ref)
-	class := c01OpKey(&v.ref) + " exit=" + v.ref.exit.Kind.String() + " " + facet
+	class := c01ClassOf(&v.ref)
 	if v.ok {
 		if v.relax != "" {
 			class += " " + v.relax
@@ -867,11 +906,11 @@ func c01Check(r *vlib.Run, pid string, blob []byte, w *c01World, gas uint64, not
 	// (assumes disagreement is monotone in g, which only affects the key)
 	full := v
 	cul := v // culprit run; the full run stands for "gas = number of steps"
-	if n := min(gas, uint64(v.ref.m.Steps)); n >= 2 {
+	if n := min(gas, uint64(v.ref.m.Steps)); n >= 1 {
 		// most often the last executed instruction is the culprit: try n-1 first
 		if v1 := c01Judge(prog, blob, v.ip, w, n-1, false); !v1.ok && !v1.capped {
 			cul = v1
-			lo, hi := uint64(1), n-1 // invariant: cul is the (bad) run with gas hi
+			lo, hi := uint64(0), n-1 // invariant: cul is the (bad) run with gas hi
 			for lo < hi {
 				mid := (lo + hi) / 2
 				if vm := c01Judge(prog, blob, v.ip, w, mid, false); !vm.ok && !vm.capped {
@@ -883,9 +922,9 @@ func c01Check(r *vlib.Run, pid string, blob []byte, w *c01World, gas uint64, not
 		}
 	}
 	culGas := cul.ref.m.Gas + uint64(cul.ref.m.Steps)
-	cpc := cul.ref.m.LastPC
+	cpc, _ := c01Culprit(&cul.ref, &cul.im)
 	where := func() string {
-		return fmt.Sprintf("first disagreement with gas %d at reference step %d: opcode %d at pc %d, skip %d, operand bytes % x",
+		return fmt.Sprintf("first disagreement with gas %d (reference steps %d); blamed instruction: opcode %d at pc %d, skip %d, operand bytes % x",
 			cul.ref.m.Gas+uint64(cul.ref.m.Steps), cul.ref.m.Steps, prog.Zeta(cpc), cpc, prog.Skip(cpc), c01Operands(prog, cpc))
 	}
 	if cul.im.runPanic {
@@ -893,7 +932,7 @@ func c01Check(r *vlib.Run, pid string, blob []byte, w *c01World, gas uint64, not
 			func() string { return fmt.Sprintf("blob %x world %s gas %d: Go panic %s (reference: %s) [%s]", blob, w.name, gas, cul.im.panicMsg, full.ref.exit, where()) }, cj)
 		return class + " impl=gopanic"
 	}
-	key := c01OpKey(&cul.ref) + ";" + c01Facet(&cul.ref)
+	key := c01KeyOf(&cul.ref, &cul.im)
 	c01Viol(r, c01EngineSite, cul.kind, key,
 		func() string { return fmt.Sprintf("blob %x world %s gas %d: %s [%s; with the full gas: %s]", blob, w.name, gas, c01Judge(prog, blob, v.ip, w, culGas, true).detail, where(), c01Judge(prog, blob, v.ip, w, gas, true).detail) }, cj)
 	return class + " impl=" + full.kind
@@ -1010,7 +1049,7 @@ const c01LongPrefix = 71
 //	pos 0: I ‖ fallthrough ‖ trap                 (instruction at the start)
 //	pos 1: fallthrough ‖ I ‖ fallthrough ‖ trap   (in the middle)
 //	pos 2: fallthrough ‖ I                        (code ends exactly at opcode+skip; ≤ 4 bitmask bytes follow)
-//	pos 3: fallthrough×71 ‖ I                     (same, ≥ 9 bitmask bytes follow the code)
+//	pos 3: jump+71 ‖ fallthrough×69 ‖ I           (same, ≥ 9 bitmask bytes, mostly 0xFF, follow the code)
 //
 // The instruction occupies 1+s bytes and only its opcode byte has a bitmask
 // bit, so skip = min(24, s) (for s > 24 the fall-through lands on an operand byte).
@@ -1039,7 +1078,10 @@ func c01SingleBlob(u c01OpUnit, b1, b2 byte, s, pos, tail int) []byte {
 		list = []refpvm.Ins{refpvm.I(1), refpvm.I(ins...)}
 		pcI = 1
 	case 3:
-		for i := 0; i < c01LongPrefix; i++ {
+		// jump over 69 fallthroughs (all with a bitmask bit, so that the bitmask
+		// bytes following the code in the blob are 0xFF…) straight to I
+		list = append(list, refpvm.I(40, c01LongPrefix))
+		for i := 2; i < c01LongPrefix; i++ {
 			list = append(list, refpvm.I(1))
 		}
 		list = append(list, refpvm.I(ins...))
@@ -1122,4 +1164,99 @@ func c01Short(s string, n int) string {
 	return s
 }
 
-var _ = strings.Join
+
+// ---------------------------------------------------------------------------
+// the two sweeps (shared by C01, C02, C04)
+// ---------------------------------------------------------------------------
+
+const c01Gas = 100
+const c01ProgGas = 40
+
+// c01SingleSweep enumerates the single-instruction sweep of the current tier
+// and calls f for the cases of this shard. The a-priori size goes to r.Space.
+//
+// quick:    147 opcodes (139 defined + 8 undefined; 50 and 180 with 6 jump-table
+//           entry widths each → 157 units) × 63 first bytes × 16 second bytes ×
+//           27 skips × 4 positions × 2 (world, operand-tail) pairs
+// thorough: 256 opcodes (266 units) × 256 first bytes × second bytes (256 for
+//           opcode 180, 20 for 190–230, 16 otherwise) × 27 skips × 4 positions ×
+//           (4 (world, tail) pairs when the first byte is in the quick lattice, else 2)
+func c01SingleSweep(r *vlib.Run, idx *uint64, f func(blob []byte, w *c01World, gas uint64, note string)) {
+	c01SingleSweepAxes(r, r.Thorough(), idx, f)
+}
+
+// c01SingleSweepQuickLattice is the quick-tier sweep whatever the tier.
+func c01SingleSweepQuickLattice(r *vlib.Run, idx *uint64, f func(blob []byte, w *c01World, gas uint64, note string)) {
+	c01SingleSweepAxes(r, false, idx, f)
+}
+
+var c01ThirdRegBytes = []byte{0, 1, 2, 3, 4, 5, 6, 7, 8, 9, 10, 11, 12, 13, 14, 15, 16, 0x7F, 0x80, 0xFF}
+
+func c01SingleSweepAxes(r *vlib.Run, thorough bool, idx *uint64, f func(blob []byte, w *c01World, gas uint64, note string)) {
+	units := c01OpUnits(thorough)
+	if dev := os.Getenv("C01_DEV_OPS"); dev != "" { // development only: never exhaustive
+		r.Cap("C01_DEV_OPS filter")
+		var keep []c01OpUnit
+		for _, u := range units {
+			for _, f := range strings.Split(dev, ",") {
+				if v, err := strconv.Atoi(f); err == nil && byte(v) == u.op {
+					keep = append(keep, u)
+				}
+			}
+		}
+		units = keep
+	}
+	firsts := c01FirstBytes(thorough)
+	inLattice := map[byte]bool{}
+	for _, b := range c01FirstBytes(false) {
+		inLattice[b] = true
+	}
+	for _, u := range units {
+		seconds := c01SecondQuick
+		if thorough && u.op == 180 {
+			seconds = c01SecondBytes(true)
+		} else if thorough && u.op >= 190 && u.op <= 230 {
+			seconds = c01ThirdRegBytes
+		}
+		for _, b1 := range firsts {
+			allPairs := thorough && inLattice[b1]
+			for _, b2 := range seconds {
+				for _, s := range c01Skips {
+					for pos := 0; pos < c01Positions; pos++ {
+						for tail := 0; tail < 2; tail++ {
+							for wi := 0; wi < 2; wi++ {
+								if !allPairs && tail != wi {
+									continue // operand tail 0 with world "arith", tail 1 with world "addr"
+								}
+								*idx++
+								if !r.Mine(*idx) {
+									continue
+								}
+								r.Space(1)
+								f(c01SingleBlob(u, b1, b2, s, pos, tail), c01Worlds[wi], c01Gas, "single")
+							}
+						}
+					}
+				}
+			}
+		}
+	}
+}
+
+// c01ProgSweep enumerates all programs of 1..maxLen alphabet instructions with
+// every bitmask over the code.
+func c01ProgSweep(r *vlib.Run, maxLen int, idx *uint64, f func(blob []byte, w *c01World, gas uint64, note string)) {
+	w := c01Worlds[2]
+	c01ProgCodes(maxLen, func(code []byte, nins int) {
+		n := uint64(1) << uint(len(code))
+		for m := uint64(0); m < n; m++ {
+			*idx++
+			if !r.Mine(*idx) {
+				continue
+			}
+			r.Space(1)
+			f(c01ProgBlob(code, m), w, c01ProgGas, "prog")
+		}
+	})
+}
+
